@@ -254,21 +254,18 @@ func exec(r *ev.Run, nIDs int, h []event) (string, string, *seqx.Failure) {
 	}
 }
 
+// VERIF_DUMP=<file> writes one line per executed history (debugging aid for determinism diffs)
 var dumpMu sync.Mutex
 var dumpF *os.File
 
 func exec1(r *ev.Run, nIDs int, h []event) (string, string, *seqx.Failure, bool) {
-	c, o, f, again := exec2(r, nIDs, h)
+	again := false
+	c, o, f := exec3(r, nIDs, h, &again)
 	if dumpF != nil && !again {
 		dumpMu.Lock()
 		fmt.Fprintf(dumpF, "%v\t%s\t%s\n", h, o, c)
 		dumpMu.Unlock()
 	}
-	return c, o, f, again
-}
-
-func exec2(r *ev.Run, nIDs int, h []event) (canon string, outcome string, fail *seqx.Failure, again bool) {
-	c, o, f := exec3(r, nIDs, h, &again)
 	return c, o, f, again
 }
 
